@@ -40,6 +40,8 @@ pub enum Step {
     ExpectStatus(usize, String),
     /// wait at most this many seconds for the tower to have nothing pending
     WaitDeliveredWithin(usize, u64),
+    /// wait (bounded) until the tower is holding a request of the client
+    WaitInFlight(usize),
 }
 
 #[derive(Clone, Debug, serde::Serialize, serde::Deserialize)]
@@ -359,6 +361,11 @@ pub fn run_scenario(sc: &Scenario, props: &[&'static str]) -> Trace {
                     }
                 }
             }
+            Step::WaitInFlight(t) => {
+                let tw = &cx.towers[*t];
+                let ok = wait_until(Duration::from_secs(8), || tw.state.lock().unwrap().in_flight > 0);
+                cx.trace.events.push(format!("wait-in-flight({t}) -> {ok}"));
+            }
             Step::ExpectStatus(t, want) => {
                 let st = cx.status_of(*t).unwrap_or_default();
                 cx.trace.events.push(format!("expect-status({t},{want}) -> {st}"));
@@ -653,7 +660,7 @@ fn c05_scenarios(tier: Tier) -> Vec<Scenario> {
                 Step::Revoke(1),
                 Step::Script(0, add.clone(), vec![Reply::Hold]),
                 Step::Up(0),
-                Step::Sleep(2500),
+                Step::WaitInFlight(0),
                 Step::Revoke(1),
                 Step::Sleep(gap),
                 Step::Release(0),
@@ -677,7 +684,7 @@ fn c05_scenarios(tier: Tier) -> Vec<Scenario> {
             Step::Revoke(1),
             Step::Script(0, add.clone(), vec![Reply::Hold]),
             Step::Up(0),
-            Step::Sleep(2500),
+            Step::WaitInFlight(0),
             Step::Revoke(1),
             Step::Release(0),
             Step::Settle,
@@ -705,7 +712,7 @@ fn c05_scenarios(tier: Tier) -> Vec<Scenario> {
             Step::Revoke(1),
             Step::Script(0, add.clone(), vec![Reply::Hold]),
             Step::Up(0),
-            Step::Sleep(2500),
+            Step::WaitInFlight(0),
             Step::Abandon(0),
             Step::Release(0),
             Step::Settle,
@@ -910,7 +917,7 @@ fn c13_scenarios(_tier: Tier) -> Vec<Scenario> {
             Step::Script(0, add.clone(), vec![Reply::Hold]),
             Step::Up(0),
             Step::Retry(0),
-            Step::Sleep(400),
+            Step::WaitInFlight(0),
             Step::Revoke(2),
             Step::Sleep(300),
             Step::Release(0),
@@ -928,7 +935,7 @@ fn c13_scenarios(_tier: Tier) -> Vec<Scenario> {
             Step::WaitStatus(0, "unreachable".into()),
             Step::Script(0, add.clone(), vec![Reply::Hold]),
             Step::Up(0),
-            Step::Sleep(2600),
+            Step::WaitInFlight(0),
             Step::Revoke(2),
             Step::Sleep(300),
             Step::Release(0),
